@@ -269,10 +269,11 @@ def _self_attrs(node, ci=None, prj=None, depth=0) -> set[str]:
     return out
 
 
-def rule_R3(ctx, prj: Project):
-    ctx.rule("R3", "every concrete predicate class defines __eq__ and __hash__ itself, __eq__ is restricted to its own "
-                   "class, and the fields hashed are a subset of the fields compared (equal => same hash): the subset "
-                   "construction identifies alphabet symbols by set membership and ==", floor=10)
+def rule_R3(ctx, prj: Project, declare=True):
+    if declare:
+        ctx.rule("R3", "every concrete predicate class defines __eq__ and __hash__ itself, __eq__ is restricted to its own "
+                 "class, and the fields hashed are a subset of the fields compared (equal => same hash): the subset "
+                 "construction identifies alphabet symbols by set membership and ==", floor=10)
     base = prj.cls(f"{GSM}.predicate.Predicate:Predicate")
     for ci in sorted(base.all_subclasses(), key=lambda c: c.qual):
         acc = ci.methods.get("accept")
@@ -297,6 +298,122 @@ def rule_R3(ctx, prj: Project):
                      f"{ci.name}.__hash__ reads {sorted(ha - ea)} which __eq__ does not compare: equal predicates may hash differently")
         else:
             ctx.ok("R3", eq.site(), f"{ci.name}: __eq__ compares {sorted(ea) or '(class only)'}, __hash__ reads {sorted(ha) or '(constant)'}")
+
+
+def _deep_differs(a, b, depth=0) -> bool:
+    from ..absint import Sym
+    if depth > 4:
+        return False
+    if isinstance(a, Sym) and isinstance(b, Sym):
+        return any(_deep_differs(a.fields.get(k), b.fields.get(k), depth + 1) for k in set(a.fields) | set(b.fields))
+    if isinstance(a, Sym) or isinstance(b, Sym):
+        return True
+    try:
+        return a != b
+    except Exception:
+        return False
+
+
+def rule_R3_evaluated(ctx, prj: Project) -> bool:
+    """predicate equality and hashing decided by evaluating __init__, __eq__ and __hash__ of every concrete predicate class on
+    instances built from the same and from different arguments; True when every class was decided and none violates"""
+    from ..absint import MiniInterp, PyRaise, Sym, Unknown
+    ctx.rule("R3", "alphabet symbols: for every concrete predicate class (its __init__, __eq__, __hash__ evaluated), two instances "
+                   "built from the same arguments are equal and hash alike, instances built from different arguments that accept() "
+                   "reads are unequal, and an instance never equals an instance of another predicate class built from the same "
+                   "arguments: the subset construction identifies symbols by == and by set / dictionary membership", floor=10)
+    base = prj.cls(f"{GSM}.predicate.Predicate:Predicate")
+    anchor = prj.func(f"{GSM}.Expression:nfa_to_dfa")
+    concrete = []
+    for ci in sorted(base.all_subclasses(), key=lambda c: c.qual):
+        acc = ci.find_method("accept")
+        if acc is None or any(isinstance(d, ast.Name) and d.id == "abstractmethod" for d in acc.node.decorator_list):
+            continue
+        if ci.methods.get("accept") is None and not any(m in ci.methods for m in ("__eq__", "__hash__", "__init__")):
+            continue
+        concrete.append(ci)
+    if not concrete:
+        raise AnalysisError("C13-R3: no concrete predicate class found")
+    it = MiniInterp(prj, max_steps=200000)
+
+    def nparams(ci):
+        init = ci.find_method("__init__")
+        if init is None:
+            return 0
+        ps = init.params()[1:]
+        return len([p for p in ps if init.param_default(p) is None]) or 0
+
+    def build(ci, vals):
+        return it.construct(ci, list(vals[:nparams(ci)]), {}, None, anchor)
+    all_decided = True
+    for ci in concrete:
+        n = nparams(ci)
+        site = f"{ci.module.rel}:{ci.node.lineno}"
+        try:
+            a1, a2 = build(ci, ["p", "q", "s"]), build(ci, ["p", "q", "s"])
+            facts = []
+            if not it.equal(a1, a2) or not it.equal(a2, a1):
+                ctx.viol("R3", f"{ci.name}/eq-hash", site, f"two {ci.name} predicates built from the same arguments do not compare equal: the subset "
+                         f"construction keeps them as two symbols, and the automaton has two transitions for one input item")
+                all_decided = False
+                continue
+            h1, h2 = it.model_hash(a1), it.model_hash(a2)
+            if h1 != h2:
+                hs = ci.find_method("__hash__")
+                ctx.viol("R3", f"{ci.name}/hash-identity" if any(isinstance(c, ast.Call) and isinstance(c.func, ast.Name) and c.func.id == "id" for c in hs.calls()) else f"{ci.name}/hash-subset",
+                         hs.site(), f"two equal {ci.name} predicates hash differently ({h1[1:]} / {h2[1:]}): sets and dictionaries of the subset construction treat "
+                         f"them as different symbols")
+                all_decided = False
+                continue
+            facts.append("same arguments: equal, same hash")
+            bad = False
+            for i in range(n):
+                vals = ["p", "q", "s"]
+                vals[i] = "r"
+                b = build(ci, vals)
+                if it.equal(a1, b) or it.equal(b, a1):
+                    acc = prj.func(ci.find_method("accept").qual)
+                    read = _self_attrs(acc.node, ci, prj)
+                    if any(_deep_differs(a1.fields.get(f), b.fields.get(f)) for f in read):
+                        ctx.viol("R3", f"{ci.name}/eq-fields", prj.func(ci.find_method("__eq__").qual).site(),
+                                 f"{ci.name} predicates built from different arguments (argument {i + 1}: 'p' / 'r' in place) compare equal although accept() "
+                                 f"reads what differs between them ({sorted(f for f in read if _deep_differs(a1.fields.get(f), b.fields.get(f)))}): the subset "
+                                 f"construction merges two different symbols")
+                        bad = True
+                        break
+                elif it.model_hash(b) is None:
+                    pass
+            if bad:
+                all_decided = False
+                continue
+            if n:
+                facts.append("different arguments: unequal")
+            for other in concrete:
+                if other is ci or ci in other.mro() or other in ci.mro():
+                    continue
+                d = build(other, ["p", "q", "s"])
+                if it.equal(a1, d) or it.equal(d, a1):
+                    ctx.viol("R3", f"{ci.name}/eq-own-class", prj.func(ci.find_method("__eq__").qual).site(),
+                             f"{ci.name}.__eq__ does not restrict equality to {ci.name} instances: a {ci.name} equals a {other.name} built from the same arguments")
+                    bad = True
+                    break
+            if bad:
+                all_decided = False
+                continue
+            facts.append(f"never equal to an instance of the {len(concrete) - 1} other classes")
+            ctx.ok("R3", site, f"{ci.name}: " + "; ".join(facts))
+        except (Unknown, PyRaise) as e:
+            ctx.info(f"R3: {ci.name} not evaluable ({type(e).__name__}: {e}); the structural rule decides")
+            all_decided = False
+    return all_decided and not any(v.rule == "R3" for v in ctx.violations)
+
+
+def rule_R3_both(ctx, prj: Project):
+    mark = len(ctx.violations)
+    decided = rule_R3_evaluated(ctx, prj)
+    if len(ctx.violations) > mark:
+        return          # positively wrong behaviour was observed; the structural reading adds nothing
+    ctx.complement("R3", lambda: rule_R3(ctx, prj, declare=False), decided, demote=True, by="the evaluated predicate equality (R3)")
 
 
 # ----------------------------------------------------------------------------
@@ -451,14 +568,14 @@ def run(ctx, prj: Project):
               "which R1 re-establishes for every operator's own result")
     evaluated = rule_R7_engine(ctx, prj, full=(ctx.tier == "thorough"))
     if evaluated == "violation":
-        rule_R3(ctx, prj)
+        rule_R3_both(ctx, prj)
         return
     if evaluated == "ok":
         # the engine as a whole was decided by evaluation; the structural rules that remain are the ones evaluation
         # does not cover: termination guards (R2) and predicate equality/hash coherence (R3)
         ctx.complement("R2", lambda: rule_R2(ctx, prj), True, demote=True,
                        by="the evaluated engine (R7), which terminated on every pattern of the family, also those whose automata contain epsilon cycles")
-        rule_R3(ctx, prj)
+        rule_R3_both(ctx, prj)
         if ctx.tier != "thorough":
             # cheap complement: the full depth-3 family through the symbolic fragments, when the operators are written in
             # the fragment that extraction understands (the thorough tier evaluates that family through R7 itself)
@@ -471,7 +588,7 @@ def run(ctx, prj: Project):
         return
     rule_R1(ctx, prj)
     rule_R2(ctx, prj)
-    rule_R3(ctx, prj)
+    rule_R3_both(ctx, prj)
     rule_R4(ctx, prj)
     rule_R5(ctx, prj)
     rule_R6_composition(ctx, prj)
